@@ -66,7 +66,7 @@ func init() {
 		p.StdPct = 30
 		p.MultiRefPct = 15
 	}), Mutate: gen.HostileArgs, Oracle: oracle.C19}
-	Props["C20"] = &PropDef{Profile: prof("C20", func(p *gen.Profile) { p.MultiArgPct = 85; p.MaxIfaces = 4; p.OutFilePct = 0 }), Oracle: oracle.C20}
+	Props["C20"] = &PropDef{Profile: prof("C20", func(p *gen.Profile) { p.MultiArgPct = 85; p.MaxIfaces = 4; p.OutFilePct = 0; p.LiteralAliasPct = 30 }), Oracle: oracle.C20}
 }
 
 // C16 runs every formatter itself; goimports from a cwd outside the module is the known finding F-N.
